@@ -3,7 +3,7 @@
 (* C11, design level and spec -> code.  Enumerates (kind, byte string)     *)
 (* for the seven token kinds of Literals.tla Part 2 and all byte strings   *)
 (* of length <= MaxLen over Alphabet (class representatives: letter, hex   *)
-(* letter, digits, $ - . _, space, quote, backslash, 0x01, 0x7F, 0x80,     *)
+(* letter, digits, $ - . _, space, %, quote, backslash, 0x01, 0x7F, 0x80,  *)
 (* 0xFF, NUL) plus ExtraStrings (escape-like sequences such as \5C, \5z,   *)
 (* \\, a\41b; numeric and leading-digit names; a 20-digit name) and        *)
 (*  (S) checks the coder under test against LLVM's lexer rules             *)
@@ -47,6 +47,7 @@ CONSTANTS Alphabet,        \* byte values
 \* the strings ExtraStrings is bound to in the cfg files:
 \*   \5C \5z \4_ \\5C a\41b \zz \\\5z x\5zz 42 007 1a 2b -5 18446744073709551616 a.b  a b"c
 DefaultExtras == {
+    <<37, 115>>, <<37, 37>>, <<97, 37>>, <<37, 33>>, <<37, 100>>, <<49, 48, 48, 37>>,   \* %s %% a% %! %d 100%
     <<92, 53, 67>>,
     <<92, 53, 122>>,
     <<92, 52, 95>>,
